@@ -102,6 +102,20 @@ func (o *Opt) UnmarshalText(b []byte) error {
 	return nil
 }
 
+// TURef is a text-unmarshalable struct that also holds mutable memory in exported fields (dials treats
+// text-unmarshalable structs as single values; they must still be copied deeply).
+type TURef struct {
+	List []string
+	M    map[string]int
+	P    *int
+}
+
+// UnmarshalText implements encoding.TextUnmarshaler.
+func (t *TURef) UnmarshalText(b []byte) error {
+	t.List = strings.Split(string(b), ",")
+	return nil
+}
+
 // Capability flags of a leaf kind.
 const (
 	CapEnv   = 1 << iota // string-castable (environment source)
@@ -426,6 +440,21 @@ func buildLeaves() []*Leaf {
 		{Name: "[]Backend", Type: reflect.TypeOf([]Backend{}), Caps: CapRef,
 			Gen: func(r *fw.Rand, uniq int) reflect.Value {
 				return rv([]Backend{{Name: GenString(r, uniq), Limits: &Limits{Max: uniq, Rate: 1.5}}, {Name: "n", Limits: &Limits{Max: 1}}})
+			}},
+		{Name: "turef", Type: reflect.TypeOf(TURef{}), Caps: CapRef | CapTextU,
+			Gen: func(r *fw.Rand, uniq int) reflect.Value {
+				x := uniq
+				return rv(TURef{List: []string{GenString(r, uniq), "l"}, M: map[string]int{"m": uniq}, P: &x})
+			}},
+		// one inner map object under two keys
+		{Name: "map[string]map[string]int", Type: reflect.TypeOf(map[string]map[string]int{}), Caps: CapRef,
+			Gen: func(r *fw.Rand, uniq int) reflect.Value {
+				inner := map[string]int{"i": uniq}
+				m := map[string]map[string]int{"a": inner, "b": inner}
+				if r.Bool() {
+					m["c"] = map[string]int{"j": -uniq}
+				}
+				return rv(m)
 			}},
 		{Name: "opt", Type: reflect.TypeOf(Opt{}), Caps: CapFlag | CapTextU,
 			Text: func(v reflect.Value) string { return v.Interface().(Opt).S },
